@@ -1350,12 +1350,11 @@ class Collocator:
         if self.index is None:
             return False
 
-        try:
-            return np.allclose(lat, self.index.lat) \
-                   & np.allclose(lon, self.index.lon)
-        except ValueError:
-            # The shapes are different
-            return False
+        # The cached index fits only if it was built from exactly these points
+        # (np.allclose would broadcast a single point against a whole index
+        # and accept points that moved by up to 1e-5 of their coordinates):
+        return np.array_equal(lat, self.index.lat) \
+            and np.array_equal(lon, self.index.lon)
 
     def _choose_points_to_build_index(self, primary, secondary):
         """Choose which points should be used for tree building
